@@ -98,7 +98,8 @@ Section Inst.
         fav_i (map v_key signers) (h_cert hd) (ac_sig a) &&
         (p_threshold p <=? sumN (map v_weight signers)) &&
         (e_mhc e <? ac_height a) && (ac_height a <=? e_mhp e) &&
-        match next_params e (u32 (e_mhc e + 1)) with Some nh => ac_height a + 1 <=? nh | None => true end
+        (* declaratively: no parameter height k with maxHeightCertified + 2 <= k (uint32) lies at or below the commit *)
+        forallb (fun kp => if u32 (u32 (e_mhc e + 1) + 1) <=? fst kp then ac_height a + 1 <=? fst kp else true) (e_params e)
     | _, _ => false
     end.
 
@@ -125,7 +126,7 @@ Section Inst.
   | OAdd (c : sc) (g ng : list sc)
   | OAddMany (cs : list sc) (g ng : list sc)
   | OCertify (from to a ki : N) (err : bool) (g ng : list sc)
-  | OGac (res : option ac) (v : N) (g ng : list sc)
+  | OGac (res : option ac) (ek : N) (v : N) (g ng : list sc)   (* ek: 0 no error, 1 parameters not found, 2 Aggregate failed, 3 other *)
   | OCleanup (keep : list N) (g ng : list sc)
   | OSelect (mhp : N) (limit : nat) (sel g ng : list sc)
   | OUpgrade (cs g ng : list sc)
@@ -160,13 +161,14 @@ Section Inst.
         let q := mkpool g ng in
         (code (scs_eqb (gossiped p') g && scs_same (nongossiped p') ng && Bool.eqb er err)
               (forallb (fun c => sc_in c (all p) || commit_valid es c) (all q) && (negb (nodup_b (all p)) || nodup_b (all q))), q)
-    | OGac res v g ng =>
+    | OGac res ek v g ng =>
         let q := mkpool g ng in
         let m := get_aggregate_commit agg_i e (gossiped p) (nongossiped p) in
         let agree := match m, res with
                      | GOk a, Some b => ac_eqb a b
                      | GEmpty h, Some b => (ac_height b =? h) && Nat.eqb (length (ac_bits b)) 0 && sig_len0_i (ac_sig b)
-                     | GErrParams, None | GErrAggregate _, None => true
+                     | GErrParams, None => ek =? 1
+                     | GErrAggregate _, None => ek =? 2
                      | _, _ => false
                      end in
         let pool_ok := forallb (commit_valid es) (all p) && nodup_b (all p) in
